@@ -53,10 +53,14 @@ pub struct Out {
 
 impl Out {
     pub fn push(&mut self, s: impl Into<String>) {
-        self.lines.push(s.into());
+        let s = s.into();
+        if std::env::var_os("PHARNESS_EAGER").is_some() {
+            eprintln!("{}", s);
+        }
+        self.lines.push(s);
     }
     pub fn meta(&mut self, s: impl AsRef<str>) {
-        self.lines.push(format!("# {}", s.as_ref()));
+        self.push(format!("# {}", s.as_ref()));
     }
 }
 
@@ -915,4 +919,171 @@ pub fn scen_tap(m: &Model, setup: &Setup, iterate_k: usize, out: &mut Out) {
         "tap records={} propagation={} conflict={} analysis={} learned={} distinct={}",
         records.len(), counts[0], counts[1], counts[2], counts[3], seen.len()
     ));
+}
+
+// ---------------------------------------------------------------------------------------------
+// C06: DRCP proof logging
+// ---------------------------------------------------------------------------------------------
+
+pub fn atomic_to_atom(a: &drcp_format::AtomicConstraint<String>, nvars: usize) -> Option<Atom> {
+    use drcp_format::AtomicConstraint;
+    use drcp_format::Comparison;
+    let var_of = |name: &str| -> Option<usize> {
+        let i: usize = name.strip_prefix('x')?.parse().ok()?;
+        if i < nvars {
+            Some(i)
+        } else {
+            None
+        }
+    };
+    match a {
+        AtomicConstraint::Int(i) if i.name == "Dummy" => {
+            // the solver's internal constant-1 variable: an atomic over it is a constant
+            let holds = match i.comparison {
+                Comparison::GreaterThanEqual => 1 >= i.value,
+                Comparison::LessThanEqual => 1 <= i.value,
+                Comparison::Equal => 1 == i.value,
+                Comparison::NotEqual => 1 != i.value,
+            };
+            if nvars == 0 {
+                return None;
+            }
+            Some(if holds { Atom::Ge(0, i32::MIN) } else { Atom::Ge(0, i32::MAX) })
+        }
+        AtomicConstraint::Int(i) => {
+            let x = var_of(&i.name)?;
+            let v = i32::try_from(i.value).ok()?;
+            Some(match i.comparison {
+                Comparison::GreaterThanEqual => Atom::Ge(x, v),
+                Comparison::LessThanEqual => Atom::Le(x, v),
+                Comparison::Equal => Atom::Eq(x, v),
+                Comparison::NotEqual => Atom::Ne(x, v),
+            })
+        }
+        AtomicConstraint::Bool(b) => {
+            let x = var_of(&b.name)?;
+            Some(if b.value { Atom::Ge(x, 1) } else { Atom::Le(x, 0) })
+        }
+    }
+}
+
+/// `kind`: 0 scaffold, 1 full, 2 with hints. `opt`: None = satisfy, Some(spec) = optimise.
+pub fn scen_proof(m: &Model, setup: &Setup, kind: u8, opt: Option<&OptSpec>, dir: &std::path::Path, out: &mut Out) {
+    use pumpkin_solver::proof::Format;
+    use pumpkin_solver::proof::ProofLog;
+    let path = dir.join("proof.drcp");
+    let lits_path = dir.join("proof.lits");
+    let _ = std::fs::remove_file(&path);
+    let _ = std::fs::remove_file(&lits_path);
+    let mut options = setup.opts.to_solver_options();
+    options.proof_log = ProofLog::cp(&path, Format::Text, kind >= 1, kind >= 2).expect("proof file");
+    let solver = Solver::with_options(options);
+    out.push(format!("model {}", m.emit()));
+    let mut built = build(solver, m, true, true, setup.style_seed);
+    let mut concluded = false;
+    let mut obj_desc = "none".to_string();
+    if built.failed_at.is_some() {
+        // a post failed: the solver is infeasible; the (immediate) Unsatisfiable answer of `satisfy`
+        // is what concludes the proof, exactly as the command-line front-ends do
+        out.push(format!("model {}", Model { vars: m.vars.clone(), cons: m.cons[..=built.failed_at.unwrap()].to_vec() }.emit()));
+        out.meta("posterr");
+        let mut brancher = make_brancher(&setup.bspec, &built.solver, &built.vars.ids);
+        let mut term = StopAt::never();
+        match built.solver.satisfy(&mut brancher, &mut term) {
+            SatisfactionResult::Unsatisfiable => concluded = true,
+            _ => out.push("bad satisfy-after-post-error-is-not-unsatisfiable"),
+        }
+    } else {
+        let mut brancher = make_brancher(&setup.bspec, &built.solver, &built.vars.ids);
+        let mut term = StopAt::never();
+        match opt {
+            None => match built.solver.satisfy(&mut brancher, &mut term) {
+                SatisfactionResult::Unsatisfiable => concluded = true,
+                SatisfactionResult::Satisfiable(_) => out.meta("satisfiable: no conclusion"),
+                SatisfactionResult::Unknown => out.push("nonterm proof"),
+            },
+            Some(spec) => {
+                let obj = built.vars.view(&spec.objective);
+                let dirn = if spec.maximise { OptimisationDirection::Maximise } else { OptimisationDirection::Minimise };
+                let no_callback: Option<fn(&Solver, SolutionReference<'_>, &BoxB)> = None;
+                let result = if spec.lus {
+                    built.solver.optimise(&mut brancher, &mut term, LinearUnsatSat::new(dirn, obj, no_callback))
+                } else {
+                    built.solver.optimise(&mut brancher, &mut term, LinearSatUnsat::new(dirn, obj, no_callback))
+                };
+                match result {
+                    OptimisationResult::Optimal(sol) => {
+                        concluded = true;
+                        obj_desc = format!("{} {}", if spec.maximise { "max" } else { "min" }, spec.objective.var);
+                        if let Some(vs) = extract(sol.as_reference(), &built.vars) {
+                            out.meta(format!("optimum {}", spec.objective.eval(&vs)));
+                            out.push(format!("opt {} 1 0 {} {}", if spec.maximise { "max" } else { "min" }, spec.objective.var, vs[spec.objective.var]));
+                        }
+                    }
+                    OptimisationResult::Unsatisfiable => concluded = true,
+                    _ => out.push("nonterm proof"),
+                }
+            }
+        }
+    }
+    drop(built);
+    if !concluded {
+        return;
+    }
+    let drcp = match std::fs::read_to_string(&path) {
+        Ok(t) => t,
+        Err(_) => {
+            out.push("bad proof-file-missing");
+            return;
+        }
+    };
+    let lits_bytes = std::fs::read(&lits_path).unwrap_or_default();
+    let defs = match drcp_format::LiteralDefinitions::<String>::parse(&lits_bytes[..]) {
+        Ok(d) => d,
+        Err(e) => {
+            out.push(format!("bad lits-file-unreadable {}", e.to_string().replace(' ', "_")));
+            return;
+        }
+    };
+    // the repo's own reader must read the proof file it wrote
+    {
+        let mut reader = drcp_format::reader::ProofReader::new(drcp.as_bytes(), |l: std::num::NonZero<i32>| l);
+        let mut k = 0;
+        loop {
+            match reader.next_step() {
+                Ok(Some(_)) => k += 1,
+                Ok(None) => break,
+                Err(e) => {
+                    out.push(format!("bad proof-unreadable-by-own-reader line={} {}", k + 1, e.to_string().replace(' ', "_")));
+                    break;
+                }
+            }
+        }
+    }
+    // literal codes used in the proof
+    let mut codes: Vec<u32> = vec![];
+    for tok in drcp.split_whitespace() {
+        if let Ok(z) = tok.parse::<i64>() {
+            if z != 0 && z.unsigned_abs() <= u32::MAX as u64 {
+                codes.push(z.unsigned_abs() as u32);
+            }
+        }
+    }
+    codes.sort();
+    codes.dedup();
+    let mut lit_txt = String::new();
+    let mut nlits = 0;
+    for c in codes {
+        if let Some(atomics) = defs.get(std::num::NonZero::new(c).unwrap()) {
+            if let Some(a) = atomics.iter().find_map(|a| atomic_to_atom(a, m.vars.len())) {
+                let mut s = String::new();
+                a.emit(&mut s);
+                lit_txt.push_str(&format!(" {}{}", c, s));
+                nlits += 1;
+            }
+        }
+    }
+    let steps: Vec<&str> = drcp.lines().filter(|l| !l.trim().is_empty()).collect();
+    out.meta(format!("proof kind={} steps={} lits={}", kind, steps.len(), nlits));
+    out.push(format!("drcp {} {} {}{} :: {}", kind, obj_desc, nlits, lit_txt, steps.join(" ; ")));
 }
